@@ -158,7 +158,7 @@ def vwrite(repo, templates):
     res.instances = 4
 
     def body_of(meth):
-        m = re.search(rf"\b{meth}\s*\([^)]*\)\s*\{{", text)
+        m = re.search(rf"\b{meth}\s*\([^)]*\)\s*(?:const\s*)?\{{", text)
         if not m:
             return None
         i = m.end() - 1
